@@ -80,6 +80,7 @@ func c12Ops(r *verifh.Rng, n, interval int, g c12GenCfg) []string {
 		nkeys = r.Range(6, 40) // many timers per slot
 	}
 	var ops []string
+	arms := 0                 // scripts registered so far (see the arm class below)
 	abs := 0                  // ticks issued so far
 	phys := map[int]int{}     // key -> absolute tick at which the slot it was last placed in is scanned
 	tick := func(c int) {
@@ -214,6 +215,44 @@ func c12Ops(r *verifh.Rng, n, interval int, g c12GenCfg) []string {
 				move(k)
 			default:
 				set(k)
+			}
+		case x >= 60 && x < 66 && g.api && arms < 6:
+			// a callback (execute or Drain) that calls back into the wheel while it runs: it re-arms its own key
+			// (cleaner.go's clean), removes it (cache.go's expiry callback), moves it (a no-op: the key is gone), or
+			// touches a key of its own (100+k; a delay below one interval there runs a nested callback at once).
+			// At most 6 scripts per section: more than drainWorkers-1 blocked Drain callbacks stall the run loop.
+			arms++
+			tgt := k
+			if r.Chance(1, 3) {
+				tgt = 100 + k
+			}
+			var call string
+			switch r.Intn(8) {
+			case 0, 1, 2, 3:
+				call = fmt.Sprintf("set %d %d %d", tgt, r.Intn(1000), delay(tgt))
+			case 4:
+				call = fmt.Sprintf("move %d %d", tgt, delay(tgt))
+			case 5:
+				call = fmt.Sprintf("remove %d", tgt)
+			case 6:
+				call = fmt.Sprintf("move %d %d", tgt, r.Range(1, interval))
+			default:
+				call = fmt.Sprintf("set %d %d %d", tgt, r.Intn(1000), r.Pick(0, -1, 1, interval))
+			}
+			ops = append(ops, fmt.Sprintf("arm %d %s", k, call))
+			if r.Chance(2, 3) {
+				set(k)
+			}
+			if tgt != k && r.Bool() {
+				set(tgt)
+			}
+			switch r.Intn(4) {
+			case 0:
+				ops = append(ops, "drain")
+			case 1:
+				someTicks()
+			case 2:
+				ops = append(ops, fmt.Sprintf("move %d %d", k, r.Range(1, interval)))
 			}
 		case x < 60 && g.api:
 			switch r.Intn(6) {
@@ -374,12 +413,57 @@ func c12GenAPI(r *verifh.Rng) []verifh.Section {
 type c12Sink struct {
 	mu    sync.Mutex
 	fired []string
+	inner []string
+	arms  map[int][][]string // key -> queue of calls to issue from inside the next callbacks of that key
+	tw    *TimingWheel
 }
 
+// exec is the execute / Drain callback. If a script is registered for the key, its call is issued on the wheel
+// from inside the callback, before the callback returns.
 func (s *c12Sink) exec(k, v any) {
 	s.mu.Lock()
 	s.fired = append(s.fired, fmt.Sprintf("%v:%v", k, v))
+	var call []string
+	ki, isInt := k.(int)
+	if isInt && len(s.arms[ki]) > 0 {
+		call = s.arms[ki][0]
+		s.arms[ki] = s.arms[ki][1:]
+	}
 	s.mu.Unlock()
+	if call == nil {
+		return
+	}
+	var err error
+	switch call[0] {
+	case "set":
+		err = s.tw.SetTimer(c12Key(call[1]), verifh.Atoi(call[2]), time.Duration(verifh.Atoi(call[3])))
+	case "move":
+		err = s.tw.MoveTimer(c12Key(call[1]), time.Duration(verifh.Atoi(call[2])))
+	case "remove":
+		err = s.tw.RemoveTimer(c12Key(call[1]))
+	}
+	res := "ok"
+	if err != nil {
+		res = c12Err(err)
+	}
+	s.mu.Lock()
+	s.inner = append(s.inner, fmt.Sprintf("in%d=%s", ki, res))
+	s.mu.Unlock()
+}
+
+func (s *c12Sink) arm(k int, call []string) {
+	s.mu.Lock()
+	if s.arms == nil {
+		s.arms = map[int][][]string{}
+	}
+	s.arms[k] = append(s.arms[k], call)
+	s.mu.Unlock()
+}
+
+func (s *c12Sink) count() int {
+	s.mu.Lock()
+	defer s.mu.Unlock()
+	return len(s.fired) + len(s.inner)
 }
 
 // collect joins the callback goroutines of the last operation (the goroutine count is back at its resting
@@ -394,10 +478,17 @@ func (s *c12Sink) collect(base *int) string {
 	}
 	s.mu.Lock()
 	out := s.fired
-	s.fired = nil
+	in := s.inner
+	s.fired, s.inner = nil, nil
 	s.mu.Unlock()
 	sort.Slice(out, func(i, j int) bool { return c12Less(out[i], out[j]) })
-	return strings.Join(out, " ")
+	sort.SliceStable(in, func(i, j int) bool {
+		var a, b int
+		fmt.Sscanf(in[i], "in%d=", &a)
+		fmt.Sscanf(in[j], "in%d=", &b)
+		return a < b
+	})
+	return strings.Join(append(out, in...), " ")
 }
 
 // c12Less orders `k:v` tokens numerically by key, then value (the driver prints the model's pairs in this order).
@@ -528,7 +619,7 @@ func TestVerifC12WB(t *testing.T) {
 			case "drain":
 				tw.drainAll(sink.exec)
 			default:
-				return "bad-op"
+				return "bad-op" // also `arm`: the white-box mode has no run loop a callback could call
 			}
 			return sink.collect(&base)
 		}
@@ -562,6 +653,7 @@ func TestVerifC12(t *testing.T) {
 		if err != nil {
 			panic(err)
 		}
+		sink.tw = tw
 		stopped := false
 		hung := false // a call did not return: the rest of the section is not executed
 		waitLoop := func() {
@@ -653,6 +745,12 @@ func TestVerifC12(t *testing.T) {
 				}
 			case "drain":
 				call(func() error { return tw.Drain(sink.exec) })
+			case "arm":
+				if len(op) < 4 || (op[2] != "set" && op[2] != "move" && op[2] != "remove") {
+					return "bad-op"
+				}
+				sink.arm(verifh.Atoi(op[1]), op[2:])
+				return "armed"
 			case "stop":
 				call(func() error { tw.Stop(); return nil }) // a second Stop panics: recorded by verifh as PANIC
 				stopped = true
@@ -670,9 +768,21 @@ func TestVerifC12(t *testing.T) {
 			if err != nil {
 				return c12Err(err)
 			}
-			waitLoop()
-			if hung {
-				return "TIMEOUT-loop"
+			// callbacks may call back into the wheel and those calls may run further callbacks: wait for the loop and
+			// join the callback goroutines until nothing new has happened
+			for round, last := 0, -1; round < 8; round++ {
+				waitLoop()
+				if hung {
+					return "TIMEOUT-loop"
+				}
+				if !verifh.SettleGoroutines(base, 5*time.Second) {
+					return "TIMEOUT-goroutines"
+				}
+				n := sink.count()
+				if n == last || (round == 0 && n == 0) {
+					break
+				}
+				last = n
 			}
 			return sink.collect(&base)
 		}
